@@ -96,17 +96,17 @@ def interpolate_suite(chk, w, rule, nmax, orders=(1, 2, 3), ns=None, fixed=True)
             items = []
             for node, deriv in spec:
                 o = Obj(brec["qn"], brec)
-                o.fields = {"node": _node(w, node), "derivative": deriv, "value": Sc(None, frozenset([("bv",)]))}
+                o.fields = {"node": _node(w, node), "derivative": deriv, "value": Sc.atom(("bv",))}
                 items.append(o)
             return Arr(items)
 
         for n in _ns(2, nmax, ns):
-            grid = w.mk_grid(w.grid_values(n)).v
+            grid = w.need_grid(w.grid_values(n))
             for (s, e) in windows(n):
-                sup = w.mk_support(grid, s, e).v
+                sup = w.need_support(grid, s, e)
                 size = e - s
                 for ylen in sorted({0, 1, size - 1, size, size + 1} - {-1}):
-                    ys = Vec([Sc(None, frozenset([("y", i)])) for i in range(ylen)])
+                    ys = Vec([Sc.atom(("y", i)) for i in range(ylen)])
                     derivs = [0, 1, order, order + 1, (1 << 64) - 1]
                     specs = []
                     if order == 1:
